@@ -265,3 +265,31 @@ pub proof fn lemma_cmp_gate(op: Operation, v: Version, o: Option<BoundSet>)
         }
     }
 }
+// per printed interval shape (one lemma each: as a single lemma over all shapes the dispatcher exceeds the resource limit)
+pub open spec fn version_ok(b: Bound) -> bool { bound_version(b) matches Some(v) ==> wf_version(v) }
+pub proof fn lemma_alt_reads_upper_only<'s>(bs: BoundSet, tail: Seq<char>, i: &'s str, o: Vec<BoundSet>, rest: &'s str)
+    requires bs_wf(bs), version_ok(*bs.upper), *bs.lower == Bound::Lower(Predicate::Unbounded), *bs.upper != Bound::Upper(Predicate::Unbounded),
+        ends_alternative(tail), i@ == bs_text(bs) + tail, range_acc(i, o, rest),
+    ensures rest@ == tail, o@.len() == 1, forall|x: VKey| #![trigger within(o@[0], x)] within(o@[0], x) <==> within(bs, x),
+{
+    reveal_strlit("<="); reveal_strlit("<");
+    broadcast use lemma_k_flip;
+    match *bs.upper {
+        Bound::Upper(Predicate::Including(v)) => { assert(i@ =~= op_text(Operation::LessThanEquals) + (ver_text(v) + tail)); lemma_alt_reads_primitive(Operation::LessThanEquals, v, tail, i, o, rest); },
+        Bound::Upper(Predicate::Excluding(v)) => { assert(i@ =~= op_text(Operation::LessThan) + (ver_text(v) + tail)); lemma_alt_reads_primitive(Operation::LessThan, v, tail, i, o, rest); },
+        _ => {},
+    }
+}
+pub proof fn lemma_alt_reads_lower_only<'s>(bs: BoundSet, tail: Seq<char>, i: &'s str, o: Vec<BoundSet>, rest: &'s str)
+    requires bs_wf(bs), version_ok(*bs.lower), *bs.upper == Bound::Upper(Predicate::Unbounded), *bs.lower != Bound::Lower(Predicate::Unbounded),
+        ends_alternative(tail), i@ == bs_text(bs) + tail, range_acc(i, o, rest),
+    ensures rest@ == tail, o@.len() == 1, forall|x: VKey| #![trigger within(o@[0], x)] within(o@[0], x) <==> within(bs, x),
+{
+    reveal_strlit(">="); reveal_strlit(">");
+    broadcast use lemma_k_flip;
+    match *bs.lower {
+        Bound::Lower(Predicate::Including(v)) => { assert(i@ =~= op_text(Operation::GreaterThanEquals) + (ver_text(v) + tail)); lemma_alt_reads_primitive(Operation::GreaterThanEquals, v, tail, i, o, rest); },
+        Bound::Lower(Predicate::Excluding(v)) => { assert(i@ =~= op_text(Operation::GreaterThan) + (ver_text(v) + tail)); lemma_alt_reads_primitive(Operation::GreaterThan, v, tail, i, o, rest); },
+        _ => {},
+    }
+}
